@@ -68,7 +68,50 @@ EPS = float(np.finfo(float).eps)
 # Tolerance in force for the current case.  1e-9 (relative) unless the mesh lies far from the origin compared with its element size:
 # translation-invariant quantities computed from absolute coordinates legitimately lose eps x offset/size (linear in the ratio); a
 # formula that cancels catastrophically loses eps x (offset/size)^2 and is still far outside.
-CUR = {"tol": TOL}
+CUR = {"tol": TOL, "style": "kw-sparse", "rnd": random.Random(0)}
+
+# How the documented parameters of an operator are handed over (one style per case, another one in the second pass).  Every operator
+# documents its parameters by name, in an order, with defaults: each of these ways of calling it is valid under that signature
+# and must give the same matrix.
+#   kw-sparse        mesh by position, required parameters by position, only the non-default options, by keyword
+#   positional       everything by position up to the last non-default option (documented defaults spelled out in between)
+#   positional-full  every documented parameter by position, trailing ones at their documented default
+#   kw-all           every documented parameter, the mesh included, by keyword
+#   mixed            a seeded prefix by position, the rest by keyword; trailing defaults spelled out or not
+WZERO = [None, None, "some", "mask"]          # zero weights in the custom adjacency dict
+CALL_STYLES = ["kw-sparse", "positional", "positional", "positional-full", "kw-all", "mixed"]
+REQUIRED = object()
+
+
+def set_case_style(case, ctx, shift=0):
+    style = case.get("style", "kw-sparse")
+    if shift:
+        order = ["kw-sparse", "positional", "kw-all", "positional-full", "mixed"]
+        style = order[(order.index(style) + shift) % len(order)]
+    CUR["style"] = style
+    CUR["rnd"] = random.Random(int(case.get("group_seed", case.get("wseed", 0))) * 7 + shift)
+    ctx.label(("call-style(2nd-pass)=" if shift else "call-style=") + style)
+
+
+def invoke(ctx, sig, fun, m, params=()):
+    """ctx.call of operator `fun` on mesh `m`; params = [(name, value, documented default or REQUIRED)] in the documented order,
+    handed over in the call style of the current case"""
+    style, rnd = CUR["style"], CUR["rnd"]
+    params = list(params)
+    needed = [d is REQUIRED or not (type(v) is type(d) and v == d) for _, v, d in params]
+    last = max([i + 1 for i, nd in enumerate(needed) if nd] or [0])
+    if style == "positional":
+        return ctx.call(sig, fun, m, *[v for _, v, _ in params[:last]])
+    if style == "positional-full":
+        return ctx.call(sig, fun, m, *[v for _, v, _ in params])
+    if style == "kw-all":
+        return ctx.call(sig, fun, mesh=m, **{n: v for n, v, _ in params})
+    if style == "mixed":
+        j = rnd.randint(0, last)
+        stop = len(params) if rnd.random() < 0.5 else last
+        return ctx.call(sig, fun, m, *[v for _, v, _ in params[:j]], **{n: v for n, v, _ in params[j:stop]})
+    npos = max([i + 1 for i, (_, _, d) in enumerate(params) if d is REQUIRED] or [0])
+    return ctx.call(sig, fun, m, *[v for _, v, _ in params[:npos]], **{n: v for (n, v, _), nd in list(zip(params, needed))[npos:] if nd})
 
 
 def set_case_tolerance(Vn, edges):
@@ -329,18 +372,33 @@ def graph_reference(nV, edges, weights=None):
     return A
 
 
-def custom_weights(nE, seed, narrow=None):
+def custom_weights(nE, seed, narrow=None, zeros=None):
     """custom dict edge id -> weight; the INSERTION ORDER of the keys is a seeded shuffle (a dict filled while walking around
-    vertices, sorted by length, ... is not in edge order) - only the mapping matters"""
+    vertices, sorted by length, ... is not in edge order) - only the mapping matters.
+    zeros: None (no weight vanishes) / 'some' (signed weights, about a third of them - at least one - exactly zero: 0.0, -0.0, int 0,
+    False or the zero of the narrow numpy type) / 'mask' (every weight 0 or 1: python bools, ints, floats or the narrow numpy type,
+    at least one 0).  A weight that is zero is a weight like any other: the documented M[i,j] = M[j,i] = weights[e] is then 0."""
     rnd = random.Random(seed)
     w = {e: rnd.choice([-1.0, 1.0]) * round(rnd.uniform(0.1, 5.0), 3) for e in range(nE)}
     order = list(range(nE))
     rnd.shuffle(order)
     if narrow == "float32":        # values exactly representable in float32, handed over as numpy float32 scalars
-        return {e: np.float32(math.copysign(max(1, round(abs(w[e]) * 8)) / 8.0, w[e])) for e in order}
-    if narrow == "uint8":
-        return {e: np.uint8(1 + int(abs(w[e]) * 40) % 250) for e in order}
-    return {e: w[e] for e in order}
+        out = {e: np.float32(math.copysign(max(1, round(abs(w[e]) * 8)) / 8.0, w[e])) for e in order}
+    elif narrow == "uint8":
+        out = {e: np.uint8(1 + int(abs(w[e]) * 40) % 250) for e in order}
+    else:
+        out = {e: w[e] for e in order}
+    if zeros and nE:
+        rz = random.Random(seed * 31 + 17)
+        forced = rz.randrange(nE)
+        ztype = {"float32": np.float32, "uint8": np.uint8}.get(narrow) or rz.choice([float, float, int, bool])
+        for e in range(nE):
+            off = e == forced or rz.random() < (0.5 if zeros == "mask" else 1 / 3)
+            if zeros == "mask":
+                out[e] = ztype(0 if off else 1)
+            elif off:
+                out[e] = -0.0 if (ztype is float and rz.random() < 0.3) else rz.choice([0.0, 0, False]) if narrow is None else ztype(0)
+    return out
 
 
 def lib_edges(ctx, m, expected_keys, what):
@@ -351,12 +409,12 @@ def lib_edges(ctx, m, expected_keys, what):
     return medges, ok
 
 
-def graph_ops(ctx, M, m, nV, medges, Vn, wseed, prefix="", narrow=None):
+def graph_ops(ctx, M, m, nV, medges, Vn, wseed, prefix="", narrow=None, zeros=None):
     """graph laplacian, adjacency (3 weightings), vertex-edge operator (2 options) against the stored edge list"""
     nE = len(medges)
     A1 = graph_reference(nV, medges)
     # --- graph laplacian = degree - adjacency
-    ok, L = ctx.call(prefix + "graph_laplacian", M.operators.graph_laplacian, m)
+    ok, L = invoke(ctx, prefix + "graph_laplacian", M.operators.graph_laplacian, m)
     if ok:
         D = todense(ctx, prefix + "graph_laplacian", L, (nV, nV), "graph_laplacian")
         if D is not None:
@@ -365,9 +423,13 @@ def graph_ops(ctx, M, m, nV, medges, Vn, wseed, prefix="", narrow=None):
             check_sym_rowsum(ctx, prefix + "graph_laplacian", D, "graph_laplacian")
     # --- adjacency
     lengths = [float(np.linalg.norm(Vn[a] - Vn[b])) for a, b in medges]
-    cw = custom_weights(nE, wseed, narrow)
+    cw = custom_weights(nE, wseed, narrow, zeros)
     if narrow:
         ctx.label("weights=" + narrow)
+    nz = sum(1 for v in cw.values() if not v)
+    ctx.label("custom-weights:no-zero" if not nz else "custom-weights:all-zero" if nz == nE else "custom-weights:some-zero")
+    if zeros == "mask" and nE:
+        ctx.label("custom-weights:0/1-mask")
     # a call that raises (documented: anything but 'one' / 'length' / a dict), and one that fails half-way (a dict without an
     # entry for the last edge), must leave nothing behind: the ordinary calls below are checked as usual
     try:
@@ -381,7 +443,7 @@ def graph_ops(ctx, M, m, nV, medges, Vn, wseed, prefix="", narrow=None):
             pass
     for wname, warg, wvals in (("one", "one", [1.0] * nE), ("length", "length", lengths), ("custom", cw, [float(cw[e]) for e in range(nE)])):
         sig = prefix + "adjacency[" + wname + "]"
-        ok, A = ctx.call(sig, M.operators.adjacency_matrix, m, warg) if wname != "one" else ctx.call(sig, M.operators.adjacency_matrix, m)
+        ok, A = invoke(ctx, sig, M.operators.adjacency_matrix, m, [("weights", warg, "one")])
         if not ok:
             continue
         exp = {}
@@ -389,8 +451,8 @@ def graph_ops(ctx, M, m, nV, medges, Vn, wseed, prefix="", narrow=None):
             exp[(a, b)] = wvals[e]
             exp[(b, a)] = wvals[e]
         check_entries(ctx, sig, A, (nV, nV), exp, f"adjacency_matrix(weights={wname})")
-    ctx.check(cw == custom_weights(nE, wseed, narrow) and list(cw) == list(custom_weights(nE, wseed, narrow)), prefix + "arguments:weights-modified", "adjacency_matrix changed the custom weights dict it was given")
-    ok, A = ctx.call(prefix + "adjacency[custom,2nd]", M.operators.adjacency_matrix, m, cw)
+    ctx.check(cw == custom_weights(nE, wseed, narrow, zeros) and list(cw) == list(custom_weights(nE, wseed, narrow, zeros)), prefix + "arguments:weights-modified", "adjacency_matrix changed the custom weights dict it was given")
+    ok, A = invoke(ctx, prefix + "adjacency[custom,2nd]", M.operators.adjacency_matrix, m, [("weights", cw, "one")])
     if ok:
         exp = {}
         for e, (a, b) in enumerate(medges):
@@ -400,7 +462,7 @@ def graph_ops(ctx, M, m, nV, medges, Vn, wseed, prefix="", narrow=None):
     # --- vertex to edge operator
     for oriented in (False, True):
         sig = prefix + f"vertex_to_edge[oriented={oriented}]"
-        ok, B = ctx.call(sig, M.operators.vertex_to_edge_operator, m, oriented) if oriented else ctx.call(sig, M.operators.vertex_to_edge_operator, m)
+        ok, B = invoke(ctx, sig, M.operators.vertex_to_edge_operator, m, [("oriented", oriented, False)])
         if not ok:
             continue
         exp = {}
@@ -412,7 +474,7 @@ def graph_ops(ctx, M, m, nV, medges, Vn, wseed, prefix="", narrow=None):
 
 def vertex_face_op(ctx, M, m, nV, F, prefix=""):
     sig = prefix + "vertex_to_face"
-    ok, B = ctx.call(sig, M.operators.vertex_to_face_operator, m)
+    ok, B = invoke(ctx, sig, M.operators.vertex_to_face_operator, m)
     if not ok:
         return
     nF = len(F)
@@ -443,6 +505,10 @@ def check_mass(ctx, M, sig, fun, m, n, base_ref, k, total, has_sqrt, has_format,
     """diagonal, positive, entries = reference, sum = k x total; inverse / sqrt entrywise; format honoured"""
     d0 = None
     combos = [(inv, sq) for inv in (False, True) for sq in ((False, True) if has_sqrt else (False,))]
+
+    def params(inv, sq, f, fdefault="csc"):
+        """the documented parameters after the mesh, in the documented order: inverse[, sqrt][, format]"""
+        return [("inverse", inv, False)] + ([("sqrt", sq, False)] if has_sqrt else []) + ([("format", f, fdefault)] if has_format else [])
     for inv, sq in combos:
         kw = {}
         if inv:
@@ -450,7 +516,7 @@ def check_mass(ctx, M, sig, fun, m, n, base_ref, k, total, has_sqrt, has_format,
         if sq:
             kw["sqrt"] = True
         s = f"{sig}[inverse={inv},sqrt={sq}]" if has_sqrt else f"{sig}[inverse={inv}]"
-        ok, mat = ctx.call(s, fun, m, **kw)
+        ok, mat = invoke(ctx, s, fun, m, params(inv, sq, "csc"))
         if not ok:
             continue
         D = todense(ctx, s, mat, (n, n), what)
@@ -477,12 +543,18 @@ def check_mass(ctx, M, sig, fun, m, n, base_ref, k, total, has_sqrt, has_format,
             if inv and not sq:
                 ctx.check(relclose_entrywise(d * d0, np.ones_like(d)), s + ":inverse-times-plain", f"{what}: M^-1 M != I, diagonal products range {float((d * d0).min())!r} .. {float((d * d0).max())!r}")
     if has_format:
+        # the format together with a seeded choice of the other options
         s = f"{sig}[format]"
-        ok, mat = ctx.call(s, fun, m, format=fmt)
-        if ok and ctx.check(sp.issparse(mat), s + ":type", f"{what}(format={fmt}) returned {type(mat).__name__}"):
-            ctx.check(getattr(mat, "format", None) == fmt, s, f"{what}(format={fmt!r}) returned format {getattr(mat, 'format', None)!r}")
+        inv, sq = CUR["rnd"].choice(combos)
+        desc = f"{what}(inverse={inv}, " + (f"sqrt={sq}, " if has_sqrt else "") + f"format={fmt!r})"
+        ok, mat = invoke(ctx, s, fun, m, params(inv, sq, fmt, None))
+        if ok and ctx.check(sp.issparse(mat), s + ":type", f"{desc} returned {type(mat).__name__}"):
+            ctx.check(getattr(mat, "format", None) == fmt, s, f"{desc} returned format {getattr(mat, 'format', None)!r}")
             if d0 is not None and tuple(mat.shape) == (n, n):
-                ctx.check(relclose(np.asarray(mat.toarray()), np.diag(d0)), s + ":values", f"{what}(format={fmt}) differs from the default-format matrix")
+                exp = np.sqrt(d0) if sq else d0
+                exp = 1.0 / exp if inv else exp
+                ctx.check(relclose_entrywise(np.diag(np.asarray(mat.toarray())), exp) and relclose(np.asarray(mat.toarray()), np.diag(exp)), s + ":values",
+                          f"{desc} differs from the entrywise transform of the plain default-format matrix " + worst(np.asarray(mat.toarray()), np.diag(exp)))
 
 
 # ============================================================================================ triangulated surfaces
@@ -605,6 +677,7 @@ def tri_case(draw):
             "conn": draw(st.sampled_from(["faces", "flat", "custom"])) if planar else draw(st.sampled_from(["faces", "faces", "custom"])),
             "face_form": draw(st.sampled_from(FACE_FORMS)), "edges_off": draw(st.sampled_from([False] * 5 + [True])),
             "dup_warning": draw(st.booleans()), "narrow": draw(st.sampled_from([None, None, "float32", "uint8"])),
+            "wzero": draw(st.sampled_from(WZERO)), "style": draw(st.sampled_from(CALL_STYLES)),
             "vconn": draw(st.sampled_from([True, False, False])), "order": draw(st.sampled_from([1, 2, 4])),
             "wseed": draw(st.integers(0, 10 ** 6)), "fmt": draw(st.sampled_from(FORMATS)),
             "sort": draw(st.sampled_from([True, True, False])), "second_pass": draw(st.sampled_from([True, False, False])), "group_seed": draw(st.integers(0, 10 ** 6))}
@@ -653,6 +726,7 @@ def fn_surface(case, ctx):
     M.config.complete_edges_from_faces = not edges_off
     M.config.display_duplicate_attribute_warning = bool(case.get("dup_warning", False))
     ctx.label("config:edges-not-completed" if edges_off else "config:edges-completed", "config:dup-warning=" + str(bool(case.get("dup_warning", False))))
+    set_case_style(case, ctx)
     int_mode = case.get("int_mode")
     if int_mode and not all_integral(V):
         raise AssertionError("integer coordinates requested for non-integral vertices")
@@ -680,14 +754,14 @@ def fn_surface(case, ctx):
 
     # ---------------------------------------------------------------- groups
     def g_laplacian():
-        ok, L = ctx.call("laplacian[cotan]", M.operators.laplacian, m)
+        ok, L = invoke(ctx, "laplacian[cotan]", M.operators.laplacian, m, [("cotan", True, True), ("connection", None, None), ("order", 4, 4)])
         if ok:
             D = todense(ctx, "laplacian[cotan]", L, (nV, nV), "laplacian(cotan=True)")
             if D is not None:
                 state["L"] = D
                 check_sym_rowsum(ctx, "laplacian[cotan]", D, "laplacian(cotan=True)")
                 ctx.check(relclose(D, K), "laplacian[cotan]:stiffness", "cotan Laplacian != P1 stiffness matrix " + worst(D, K))
-        ok, L = ctx.call("laplacian[uniform]", M.operators.laplacian, m, cotan=False)
+        ok, L = invoke(ctx, "laplacian[uniform]", M.operators.laplacian, m, [("cotan", False, True), ("connection", None, None), ("order", 4, 4)])
         if ok:
             D = todense(ctx, "laplacian[uniform]", L, (nV, nV), "laplacian(cotan=False)")
             if D is not None:
@@ -734,8 +808,8 @@ def fn_surface(case, ctx):
         # cross-check of the oracle itself: P1 gradient of the interpolant, expressed in the same basis
         gref = R.p1_gradient(Vn, F, fvals)
         assert relclose(np.sum(gref * BX, axis=1) + 1j * np.sum(gref * BY, axis=1), exp_c, 1e-7) or amax(exp_c) < 1e-9, "oracle self-check"
-        okc, Gc = ctx.call("gradient[complex," + which + "]", M.operators.gradient, m, conn)
-        okr, Gr = ctx.call("gradient[real," + which + "]", M.operators.gradient, m, conn, as_complex=False)
+        okc, Gc = invoke(ctx, "gradient[complex," + which + "]", M.operators.gradient, m, [("conn", conn, REQUIRED), ("as_complex", True, True)])
+        okr, Gr = invoke(ctx, "gradient[real," + which + "]", M.operators.gradient, m, [("conn", conn, REQUIRED), ("as_complex", False, True)])
         Dc = todense(ctx, "gradient[complex," + which + "]", Gc, (nF, nV), "gradient(as_complex=True)") if okc else None
         Dr = todense(ctx, "gradient[real," + which + "]", Gr, (2 * nF, nV), "gradient(as_complex=False)") if okr else None
         if Dr is not None:
@@ -789,11 +863,11 @@ def fn_surface(case, ctx):
             check_mass(ctx, M, "mass_edges", M.operators.area_weight_matrix_edges, m, nE, pe, 1, total, False, False, case["fmt"], "area_weight_matrix_edges")
 
     def g_graph():
-        graph_ops(ctx, M, m, nV, medges, Vn, case["wseed"], narrow=case.get("narrow"))
+        graph_ops(ctx, M, m, nV, medges, Vn, case["wseed"], narrow=case.get("narrow"), zeros=case.get("wzero"))
         vertex_face_op(ctx, M, m, nV, F)
         if closed and not isolated and not edges_off:
-            ok1, L1 = ctx.call("laplacian[uniform]", M.operators.laplacian, m, cotan=False)
-            ok2, L2 = ctx.call("graph_laplacian", M.operators.graph_laplacian, m)
+            ok1, L1 = invoke(ctx, "laplacian[uniform]", M.operators.laplacian, m, [("cotan", False, True), ("connection", None, None), ("order", 4, 4)])
+            ok2, L2 = invoke(ctx, "graph_laplacian", M.operators.graph_laplacian, m)
             if ok1 and ok2 and sp.issparse(L1) and sp.issparse(L2) and L1.shape == L2.shape:
                 ctx.check(relclose(L1.toarray(), L2.toarray()), "laplacian[uniform]:closed=graph", "on a closed surface laplacian(cotan=False) != graph_laplacian")
 
@@ -808,7 +882,7 @@ def fn_surface(case, ctx):
         big = np.abs(cs) > 1e-6
         for inv in (True, False):
             sig = f"cotan_edge_diagonal[inverse={inv}]"
-            ok, Dm = ctx.call(sig, M.operators.cotan_edge_diagonal, m, inv) if not inv else ctx.call(sig, M.operators.cotan_edge_diagonal, m)
+            ok, Dm = invoke(ctx, sig, M.operators.cotan_edge_diagonal, m, [("inverse", inv, True)])
             if not ok:
                 continue
             D = todense(ctx, sig, Dm, (nE, nE), "cotan_edge_diagonal")
@@ -827,7 +901,7 @@ def fn_surface(case, ctx):
                 dual[f1, f2] -= 1; dual[f2, f1] -= 1; dual[f1, f1] += 1; dual[f2, f2] += 1
         for cot in (True, False):
             sig = f"laplacian_triangles[cotan={cot}]"
-            ok, Lt = ctx.call(sig, M.operators.laplacian_triangles, m) if cot else ctx.call(sig, M.operators.laplacian_triangles, m, cotan=False)
+            ok, Lt = invoke(ctx, sig, M.operators.laplacian_triangles, m, [("cotan", cot, True), ("connection", None, None), ("order", 4, 4)])
             if not ok:
                 continue
             D = todense(ctx, sig, Lt, (nF, nF), "laplacian_triangles")
@@ -840,7 +914,7 @@ def fn_surface(case, ctx):
         if not isolated:
             for cot in (True, False):
                 sig = f"laplacian_edges[cotan={cot}]"
-                ok, Le = ctx.call(sig, M.operators.laplacian_edges, m) if cot else ctx.call(sig, M.operators.laplacian_edges, m, cotan=False)
+                ok, Le = invoke(ctx, sig, M.operators.laplacian_edges, m, [("cotan", cot, True), ("connection", None, None), ("order", 4, 4)])
                 if not ok:
                     continue
                 D = todense(ctx, sig, Le, (nE, nE), "laplacian_edges")
@@ -868,7 +942,7 @@ def fn_surface(case, ctx):
         ctx.label("vertex-connection")
         order = int(case["order"])
         sig = f"laplacian[connection,order={order}]"
-        ok, Lc = ctx.call(sig, M.operators.laplacian, m2, True, vc, order)
+        ok, Lc = invoke(ctx, sig, M.operators.laplacian, m2, [("cotan", True, True), ("connection", vc, None), ("order", order, 4)])
         if ok:
             D = todense(ctx, sig, Lc, (nV, nV), "laplacian(connection=...)")
             if D is not None:
@@ -876,7 +950,7 @@ def fn_surface(case, ctx):
                 ctx.check(relclose(np.abs(D), np.abs(K), 1e-8), sig + ":modulus", "|connection Laplacian| != |cotan Laplacian| entrywise " + worst(np.abs(D), np.abs(K)))
                 ctx.check(relclose(np.diag(D), np.diag(K).astype(complex), 1e-8), sig + ":diagonal", "diagonal of the connection Laplacian != diagonal of the cotan Laplacian")
         sig = f"laplacian[uniform,connection,order={order}]"
-        ok, Lc = ctx.call(sig, M.operators.laplacian, m2, False, vc, order)
+        ok, Lc = invoke(ctx, sig, M.operators.laplacian, m2, [("cotan", False, True), ("connection", vc, None), ("order", order, 4)])
         if ok:
             D = todense(ctx, sig, Lc, (nV, nV), "laplacian(cotan=False, connection=...)")
             if D is not None:
@@ -896,6 +970,7 @@ def fn_surface(case, ctx):
     if case.get("second_pass"):
         ctx.label("second-pass")
         ctx = SecondPass(ctx)
+        set_case_style(case, ctx, shift=1 + case["group_seed"] % 4)
         state.clear()
         groups2 = list(groups)
         random.Random(case["group_seed"] + 1).shuffle(groups2)
@@ -925,6 +1000,7 @@ def tet_case(draw):
     int_mode = draw(st.sampled_from(["numpy", "python"])) if all_integral(V) else None
     return {"V": V, "C": t["C"], "tags": tags, "int_mode": int_mode, "wseed": draw(st.integers(0, 10 ** 6)), "fmt": draw(st.sampled_from(FORMATS)),
             "cell_form": draw(st.sampled_from(FACE_FORMS)), "dup_warning": draw(st.booleans()), "narrow": draw(st.sampled_from([None, None, "float32", "uint8"])),
+            "wzero": draw(st.sampled_from(WZERO)), "style": draw(st.sampled_from(CALL_STYLES)),
             "pre_sparse": draw(st.booleans()),
             "pre": draw(st.booleans()), "second_pass": draw(st.sampled_from([True, False, False])), "group_seed": draw(st.integers(0, 10 ** 6))}
 
@@ -955,6 +1031,7 @@ def fn_volume(case, ctx):
         ctx.label("tolerance-relaxed(far)")
     M.config.display_duplicate_attribute_warning = bool(case.get("dup_warning", False))      # restored by the runner
     ctx.label("config:dup-warning=" + str(bool(case.get("dup_warning", False))))
+    set_case_style(case, ctx)
     cell_form = case.get("cell_form", "list")
     ctx.label("cells-as=" + cell_form)
     m = build_volume(V, C, int_mode, cell_form)
@@ -969,7 +1046,7 @@ def fn_volume(case, ctx):
         return
 
     def g_vlap():
-        ok, L = ctx.call("volume_laplacian", M.operators.volume_laplacian, m)
+        ok, L = invoke(ctx, "volume_laplacian", M.operators.volume_laplacian, m)
         if not ok:
             return
         D = todense(ctx, "volume_laplacian", L, (nV, nV), "volume_laplacian")
@@ -996,7 +1073,7 @@ def fn_volume(case, ctx):
                       "all dihedral angles <= 90 deg but volume_laplacian != P1 stiffness matrix (n-D cotan formula) " + worst(D, Kt))
 
     def g_tlap():
-        ok, L = ctx.call("laplacian_tetrahedra", M.operators.laplacian_tetrahedra, m)
+        ok, L = invoke(ctx, "laplacian_tetrahedra", M.operators.laplacian_tetrahedra, m)
         if not ok:
             return
         D = todense(ctx, "laplacian_tetrahedra", L, (nC, nC), "laplacian_tetrahedra")
@@ -1019,7 +1096,7 @@ def fn_volume(case, ctx):
         check_mass(ctx, M, "mass_volume_cells", M.operators.volume_weight_matrix_cells, m, nC, vols, 1, total, True, True, case["fmt"], "volume_weight_matrix_cells")
 
     def g_graph():
-        graph_ops(ctx, M, m, nV, medges, Vn, case["wseed"], prefix="vol:", narrow=case.get("narrow"))
+        graph_ops(ctx, M, m, nV, medges, Vn, case["wseed"], prefix="vol:", narrow=case.get("narrow"), zeros=case.get("wzero"))
 
     groups = [("vlap", g_vlap), ("tlap", g_tlap), ("mass", g_mass), ("graph", g_graph)]
     random.Random(case["group_seed"]).shuffle(groups)
@@ -1031,6 +1108,7 @@ def fn_volume(case, ctx):
     if case.get("second_pass"):
         ctx.label("second-pass")
         ctx = SecondPass(ctx)
+        set_case_style(case, ctx, shift=1 + case["group_seed"] % 4)
         groups2 = list(groups)
         random.Random(case["group_seed"] + 1).shuffle(groups2)
         for gname, g in groups2:
@@ -1068,7 +1146,7 @@ def graph_case(draw):
     E = [[perm[a], perm[b]] for a, b in E]
     rnd = np.random.RandomState(draw(st.integers(0, 10 ** 6)))
     V = (rnd.randint(-40, 41, size=(n, 3)) / 8.0 + np.arange(n)[:, None] * np.array([[0.01, 0.003, 0.0007]])).tolist()
-    return {"V": V, "E": E, "kind": kind, "wseed": draw(st.integers(0, 10 ** 6))}
+    return {"V": V, "E": E, "kind": kind, "wseed": draw(st.integers(0, 10 ** 6)), "wzero": draw(st.sampled_from(WZERO)), "style": draw(st.sampled_from(CALL_STYLES))}
 
 
 def fn_graph(case, ctx):
@@ -1086,17 +1164,18 @@ def fn_graph(case, ctx):
         ctx.label("no-edge")
     ctx.nontrivial(len(E) >= 2)
     CUR["tol"] = TOL
+    set_case_style(case, ctx)
     m = polyline_from(V, E)
     medges, ok = lib_edges(ctx, m, set(key(e) for e in E), "polyline")
     if not ok:
         return
-    graph_ops(ctx, M, m, nV, medges, Vn, case["wseed"], prefix="polyline:", narrow=[None, "float32", "uint8"][case["wseed"] % 3])
+    graph_ops(ctx, M, m, nV, medges, Vn, case["wseed"], prefix="polyline:", narrow=[None, "float32", "uint8"][case["wseed"] % 3], zeros=case.get("wzero"))
 
 
 @st.composite
 def polygon_case(draw):
     s = draw(G.surfaces(max_faces=50, keep_isolated=draw(st.integers(0, 7)) == 0))
-    return {"V": s["V"], "F": s["F"], "tags": s["tags"], "wseed": draw(st.integers(0, 10 ** 6))}
+    return {"V": s["V"], "F": s["F"], "tags": s["tags"], "wseed": draw(st.integers(0, 10 ** 6)), "wzero": draw(st.sampled_from(WZERO)), "style": draw(st.sampled_from(CALL_STYLES))}
 
 
 def fn_polygon(case, ctx):
@@ -1112,11 +1191,12 @@ def fn_polygon(case, ctx):
             ctx.label(t)
     ctx.nontrivial(len(ref.uedges) >= 2 and len(set(len(f) for f in F)) >= 1 and len(F) >= 2)
     CUR["tol"] = TOL
+    set_case_style(case, ctx)
     m = surface_from(V, F)
     medges, ok = lib_edges(ctx, m, ref.uedges, "polygon surface")
     if not ok:
         return
-    graph_ops(ctx, M, m, nV, medges, Vn, case["wseed"], prefix="polygon:")
+    graph_ops(ctx, M, m, nV, medges, Vn, case["wseed"], prefix="polygon:", zeros=case.get("wzero"))
     vertex_face_op(ctx, M, m, nV, F, prefix="polygon:")
 
 
